@@ -161,6 +161,59 @@ def run_rt(ctx, r):
     r.sample({'runtime_harness': [ln for ln in out.split('\n') if ln.startswith('OUT RT')]})
 
 
+def run_ident(ctx, r):
+    """identity of the signalling thread when pika tasks share / change worker OS threads (harness/c14_ident.cpp)"""
+    h = ctx.build_harness('c14_ident', 'c14_ident.cpp')
+    n = 120 if ctx.tier == 'quick' else 1500
+    for workers, policy in ((1, 'local'), (4, 'static'), (4, 'local')):
+        rc, out = sh([h, str(workers), policy, str(ctx.seed), str(n)], timeout=600)
+        lines = out.split('\n')
+        ins = {x.split(' ')[2]: x for x in lines if x.startswith('IN ID ')}
+        outs = [x for x in lines if x.startswith('OUT ID ')]
+        rep = {'harness': 'c14_ident', 'args': [workers, policy, ctx.seed, n]}
+        ended = any(x.startswith('END ID') for x in lines)
+        r.evaluations += len(outs)
+        for o_ in outs:
+            p = o_.split(' ')
+            f = dict(x.split('=', 1) for x in p[3:] if '=' in x)
+            i_ = ins.get(p[2], '')
+            rp = dict(rep, case=i_, observed=o_)
+            scen = f.get('scen')
+            if f.get('hang') == '1':
+                r.hits.append(Hit('monitor', 'C14:rt:ident:hang:%s' % scen, 'no progress for 30 s in scenario %s (%d workers, %s): %s' % (scen, workers, policy, i_), rp))
+                continue
+            if scen == 'dtor':
+                where = 'same_os_thread_other_task' if f.get('same_os') == '1' else 'other_os_thread_other_task'
+                r.count('ident:dtor:%s:workers=%d:%s' % (where, workers, policy))
+                r.nontrivial('ident:%d:%s:%s' % (workers, policy, i_))
+                if f.get('returned') != '1':
+                    r.hits.append(Hit('monitor', 'C14:rt:ident:dtor_hang:%s' % where,
+                                      'task B destroying a stop_callback whose callback is in progress inside task A (request_stop) did not return within 10 s: %s | %s' % (i_, o_), rp))
+                elif f.get('early') != '0':
+                    r.hits.append(Hit('monitor', 'C14:rt:dtor_returned_during_callback:%s' % where,
+                                      'task A called request_stop(); its callback gave up the worker (yield / suspend) for ~2 ms; task B destroyed that stop_callback '
+                                      'meanwhile: the destructor returned although the callback had not finished (flag stored by its last statement was false). '
+                                      'B entered the destructor on %s as the one on which A entered request_stop (%d workers, scheduler %s): %s | %s'
+                                      % ('the SAME worker OS thread' if f.get('same_os') == '1' else 'ANOTHER worker OS thread', workers, policy, i_, o_), rp))
+                elif f.get('ran') != '1' or f.get('req') != '1':
+                    r.hits.append(Hit('monitor', 'C14:rt:ident:callback_runs', 'callback ran %s times, request_stop returned %s: %s' % (f.get('ran'), f.get('req'), o_), rp))
+            elif scen == 'self':
+                mig = 'after_migration' if f.get('migrated') == '1' else 'same_worker'
+                r.count('ident:self:%s:workers=%d:%s' % (mig, workers, policy))
+                r.nontrivial('ident:%d:%s:%s' % (workers, policy, i_))
+                if f.get('returned') != '1':
+                    r.hits.append(Hit('monitor', 'C14:rt:self_deregistration:deadlock:%s' % mig,
+                                      'a callback that gave up its worker%s and then destroyed its own stop_callback from inside never returned (request_stop did not '
+                                      'return within 10 s): the destructor waits for the callback running on its own thread (= the same pika task) (%d workers, scheduler %s): %s | %s'
+                                      % (' and continued on another worker OS thread' if f.get('migrated') == '1' else '', workers, policy, i_, o_), rp))
+                elif f.get('ran') != '1' or f.get('req') != '1' or f.get('cb_done') != '1':
+                    r.hits.append(Hit('monitor', 'C14:rt:self_deregistration:outcome', 'self-deregistering callback: %s' % o_, rp))
+        if not ended and not any(' returned=0' in x or ' hang=1' in x for x in outs):
+            r.hits.append(Hit('monitor' if outs else 'tie', 'C14:rt:ident:crash',
+                              'c14_ident %d %s died rc=%d: %s' % (workers, policy, rc, ' | '.join(lines[-5:])[-400:]), rep))
+        r.sample({'ident_harness': [workers, policy] + outs[:2]})
+
+
 def run(ctx):
     r = Result()
     r.rule = ('LOCKSTEP: (thread count 2..4, per-thread programs of request_stop / construct callback / destroy callback / '
@@ -169,7 +222,11 @@ def run(ctx):
               'extracted model replays it; non-trivial = >=2 threads, >=2 request_stop or a callback plus a request, >=8 steps. '
               'DIFF: generated handle histories (<=12 ops quick) on real stop_source/stop_token vs Model/StopHandles.v, '
               'stop_possible()/stop_requested() of every live handle compared after every step. RUNTIME: pika tasks + OS '
-              'threads, monitors only. '
+              'threads, monitors only. IDENT (harness/c14_ident.cpp; 1 worker, 4 workers static scheduler with hints, 4 workers stealing scheduler): '
+              'task A calls request_stop(), its callback gives up the worker for ~2 ms (yield loop / suspension released by an OS thread / both), a different '
+              'task B hinted to the same or to another worker destroys that stop_callback meanwhile -- the destructor returns only after the callback\'s last '
+              'statement (hit classified by the observed OS thread ids: same_os_thread_other_task / other_os_thread_other_task); dual: a callback that gave up its '
+              'worker (and migrated to another worker OS thread where tasks are stolen) destroys its own stop_callback from inside and must not deadlock (10 s watchdog). '
               'STRESS (free-running stress twin, harness/c14_stress.cpp): real concurrency on plain OS threads, no controller, no '
               'hook installed — per trial a fresh stop_source (one copy per requester), one token, M in 0..5 stop_callbacks '
               'registered up front (kinds: plain / destroys itself from inside the callback / destroyed by a racing thread), then '
@@ -207,6 +264,7 @@ def run(ctx):
     else:
         r.hits.append(Hit('tie', 'C14:handles:missing', 'tools/props/c14_handles.py not importable', {}))
     run_rt(ctx, r)
+    run_ident(ctx, r)
     if not ctx.replay or twin_replay(ctx, 'c14_stress'):
         hs = ctx.build_harness('c14_stress', 'c14_stress.cpp')
         run_twin(ctx, r, 'C14', hs, 'c14_stress', 'STS', [], 100000000, 10000 if ctx.tier == 'quick' else 90000,
